@@ -164,4 +164,7 @@ func init() {
 	if os.Getenv("VERIF_LOG") == "" {
 		log.SetOutput(io.Discard)
 	}
+	if os.Getenv("VERIF_TRACE") != "" {
+		litefs.TraceLog.SetOutput(os.Stderr)
+	}
 }
